@@ -25,6 +25,12 @@ WITH RECURSIVE n(i) AS (SELECT 1 UNION ALL SELECT i+1 FROM n WHERE i<40)
 INSERT INTO t SELECT i, 'name'||(i%7), i*1.5 FROM n;
 CREATE TABLE w(k TEXT PRIMARY KEY, v) WITHOUT ROWID;
 INSERT INTO w VALUES('x',1),('y',2),('z',3);
+CREATE TABLE e(a, b);
+CREATE INDEX e_b ON e(b);
+CREATE TABLE emptied(a, b);
+CREATE INDEX emptied_b ON emptied(b);
+INSERT INTO emptied VALUES(1, 'x'),(2, 'y');
+DELETE FROM emptied;
 `
 
 type hdrVerdict int
@@ -150,6 +156,21 @@ func c15Ops() []Op {
 	ops := StdOps(OpSpec{Table: "t", Cols: []string{"a", "b", "c"}, Index: "t_b",
 		Key: keyOf("name3"), DbKey: dbKeyOf("name3"), DbKeyTo: dbKeyOf("name5"), PKKey: keyOf(int64(7)), Rowid: 7})
 	ops = append(ops, StdOps(OpSpec{Table: "w", Cols: []string{"k", "v"}, WR: true, PKKey: keyOf("y")})...)
+	// b-tree pages without a single cell (their content offset field is 0 = 65536 with 64 KB pages)
+	ops = append(ops,
+		highOp("Select(e)", false, func(e *Env, c *collector) error {
+			return e.H.Select("e", func(r sqlittle.Row) { c.add(CopyRow(r)) }, "a", "b")
+		}),
+		highOp("IndexedSelect(e,e_b)", false, func(e *Env, c *collector) error {
+			return e.H.IndexedSelect("e", "e_b", func(r sqlittle.Row) { c.add(CopyRow(r)) }, "a", "b")
+		}),
+		highOp("Select(emptied)", false, func(e *Env, c *collector) error {
+			return e.H.Select("emptied", func(r sqlittle.Row) { c.add(CopyRow(r)) }, "a", "b")
+		}),
+		highOp("IndexedSelectEq(emptied,emptied_b)", false, func(e *Env, c *collector) error {
+			return e.H.IndexedSelectEq("emptied", "emptied_b", sqlittle.Key{"x"}, func(r sqlittle.Row) { c.add(CopyRow(r)) }, "a", "b")
+		}),
+	)
 	return ops
 }
 
